@@ -94,6 +94,16 @@ fn loop_progs(n: u64) -> Vec<(String, String)> {
     ]
 }
 
+/// programs whose reachable data is bounded while MANY short-lived tasks are created and finish: a finished task's
+/// heap, stack and thread record must be released (only section B runs these: whole-process live bytes are compared)
+fn task_loop_progs(n: u64) -> Vec<(String, String)> {
+    vec![
+        ("tasks-sequential".into(), format!("let c: channel<int> = channel()\nvar i = 0\nvar total = 0\nwhile i < {n} {{\n  let k = i\n  task {{\n    let s = \"t\" .. k\n    let arr = [s, s .. \"x\", s .. \"y\"]\n    c.write(arr.len() + k)\n  }}\n  total = total + c.read()\n  i = i + 1\n}}\nprintln(total)\n")),
+        ("tasks-pairs".into(), format!("type Msg = {{ tag: string, vals: array<int> }}\nlet c: channel<Msg> = channel()\nvar i = 0\nvar total = 0\nwhile i < {n} / 2 + 1 {{\n  let k = i\n  task {{\n    c.write(Msg(\"a\" .. k, [k, k + 1]))\n  }}\n  task {{\n    let junk = [\"j\" .. k, \"k\" .. k]\n    c.write(Msg(\"b\" .. k, [junk.len()]))\n  }}\n  let m1 = c.read()\n  let m2 = c.read()\n  total = total + m1.vals.len() + m2.vals.len()\n  i = i + 1\n}}\nprintln(total)\n")),
+        ("tasks-failing".into(), format!("let c: channel<int> = channel()\nvar i = 0\nvar total = 0\nwhile i < {n} / 4 + 1 {{\n  let k = i\n  task {{\n    let xs = [k]\n    c.write(k)\n    let boom = xs[5]\n  }}\n  total = total + c.read()\n  i = i + 1\n}}\nprintln(total)\n")),
+    ]
+}
+
 /// run under the real pacing, one step at a time, recording the peak heap of the main thread:
 /// (max of the VM's own heap_size, max objects, max of real live bytes above the level at runtime creation)
 fn peak_heap(src: &str) -> Option<(usize, usize, String)> {
@@ -463,8 +473,10 @@ fn main() {
 
     // ---- B: bounded heap under the real pacing
     let (n1, n2) = if quick { (200u64, 2000u64) } else { (500, 10_000) };
-    let small = loop_progs(n1);
-    let big = loop_progs(n2);
+    let mut small = loop_progs(n1);
+    let mut big = loop_progs(n2);
+    small.extend(task_loop_progs(n1));
+    big.extend(task_loop_progs(n2));
     let all: Vec<(String, String)> = small.iter().chain(big.iter()).cloned().collect();
     // sequential: the counting allocator is process-wide
     let peaks: Vec<_> = all.iter().map(|(_, src)| peak_heap(src)).collect();
